@@ -233,6 +233,14 @@ def rule_R10(text, fired):
     for pm in re.finditer(r'(\w+)\s*:\s*\*\s*(mut|const)\s+(\w+)', params):
         name, _kind, ty = pm.group(1), pm.group(2), pm.group(3)
         body = text[m.end():]
+        if ty == 'c_char' and re.search(r'\bCStr::from_ptr\(\s*' + name + r'\s*\)\.to_str\(\)', body):
+            # a NUL-terminated C string handed over as a read-only pointer: `Option<&CText>` (null = None); reading it through
+            # CStr::from_ptr(p).to_str() becomes cstr_to_str(p), whose precondition is that p is not null
+            new_params = new_params.replace(pm.group(0), f'{name}: Option<&CText>')
+            text = re.sub(r'\bCStr::from_ptr\(\s*' + name + r'\s*\)\.to_str\(\)', f'cstr_to_str({name})', text)
+            text = re.sub(r'\b' + name + r'\s*\.\s*is_null\(\)', f'{name}.is_none()', text)
+            _count(fired, 'R10')
+            continue
         if re.search(r'\b' + name + r'\s*\.\s*as_mut\(\)', body):
             new_params = new_params.replace(pm.group(0), f'{name}: &mut {ty}')
             text = re.sub(r'\b' + name + r'\s*\.\s*as_mut\(\)', f'Some({name})', text)
